@@ -70,9 +70,9 @@ def random_stream(rng, hold_heavy=True):
 
 def subsets(rng, n):
     allt = "1234AFKLM"
-    out = [allt, "124L", "23", "43", "234"]
+    out = [allt, "124L", "23", "43", "234", ""]          # the empty set is a subset too: nothing is included
     while len(out) < n:
-        out.append("".join(c for c in allt if rng.random() < .6) or "1")
+        out.append("".join(c for c in allt if rng.random() < .6))
     return out[:n]
 
 
@@ -167,7 +167,7 @@ def run(ctx, for_c10=False):
     sample = [s for s in streams if s[0] != "grid"][: ctx.scale(300, 3000)] + streams[:ctx.scale(300, 3000)]
     for kind, notes in sample:
         mn = rng.randrange(1, 5)
-        incl = rng.choice(["124L", "124L", "1", "1234AFKLM", "12M"])
+        incl = rng.choice(["124L", "124L", "1", "1234AFKLM", "12M", ""])
         mode = rng.choice(MODES)
         oh, ot = rng.choice(POLICIES), rng.choice(POLICIES)
         head = rng.choice("24")
